@@ -1462,3 +1462,101 @@ func sliceRoot(v ssa.Value) ssa.Value {
 	}
 	return v
 }
+
+// ---------------------------------------------------------------------------
+// values wrapped in local structs (map[string]storedBlob{bytes []byte})
+
+// wholeStoreOf: local struct cell a receives exactly one whole-value store
+// (`*a = v`) and no stores through its fields; returns v.
+func wholeStoreOf(a *ssa.Alloc) ssa.Value {
+	if a == nil || a.Referrers() == nil {
+		return nil
+	}
+	var val ssa.Value
+	for _, r := range *a.Referrers() {
+		switch x := r.(type) {
+		case *ssa.Store:
+			if x.Addr != ssa.Value(a) || val != nil {
+				return nil
+			}
+			val = x.Val
+		case *ssa.FieldAddr:
+			if x.Referrers() != nil {
+				for _, q := range *x.Referrers() {
+					if s, ok := q.(*ssa.Store); ok && s.Addr == ssa.Value(x) {
+						return nil
+					}
+				}
+			}
+		}
+	}
+	return val
+}
+
+// fieldOfLocalStruct: v is `*(&a.f)` for a local struct cell a that holds one
+// whole value s: v is field f of s. It returns s.
+func fieldOfLocalStruct(v ssa.Value) (ssa.Value, bool) {
+	u, ok := v.(*ssa.UnOp)
+	if !ok || u.Op != token.MUL {
+		return nil, false
+	}
+	fa, ok := u.X.(*ssa.FieldAddr)
+	if !ok {
+		return nil, false
+	}
+	a, ok := fa.X.(*ssa.Alloc)
+	if !ok {
+		return nil, false
+	}
+	if s := wholeStoreOf(a); s != nil {
+		return s, true
+	}
+	return nil, false
+}
+
+// containedSlices lists the slice values held by v: v itself if it is a
+// slice; for a struct value assembled in a local cell (composite literal),
+// the slices stored into its fields. ok is false when v is a struct whose
+// construction the rule cannot see.
+func containedSlices(v ssa.Value) (vals []ssa.Value, ok bool) {
+	if _, isSlice := v.Type().Underlying().(*types.Slice); isSlice {
+		return []ssa.Value{v}, true
+	}
+	if _, isStruct := v.Type().Underlying().(*types.Struct); !isStruct {
+		return nil, true
+	}
+	u, isLoad := v.(*ssa.UnOp)
+	if !isLoad || u.Op != token.MUL {
+		return nil, false
+	}
+	a, isAlloc := u.X.(*ssa.Alloc)
+	if !isAlloc || a.Referrers() == nil {
+		return nil, false
+	}
+	for _, r := range *a.Referrers() {
+		switch x := r.(type) {
+		case *ssa.FieldAddr:
+			if x.Referrers() == nil {
+				continue
+			}
+			for _, q := range *x.Referrers() {
+				if s, isStore := q.(*ssa.Store); isStore && s.Addr == ssa.Value(x) {
+					sub, ok2 := containedSlices(s.Val)
+					if !ok2 {
+						return nil, false
+					}
+					vals = append(vals, sub...)
+				}
+			}
+		case *ssa.Store:
+			if x.Addr == ssa.Value(a) {
+				sub, ok2 := containedSlices(x.Val)
+				if !ok2 {
+					return nil, false
+				}
+				vals = append(vals, sub...)
+			}
+		}
+	}
+	return vals, true
+}
